@@ -17,7 +17,7 @@ ASSUMPTIONS = ["vf/model.py resolution: local -> same scope; ordinary -> own fil
                "one reported expected identifier suffices when several errors are planted (the first error aborts the build)"]
 
 NAMES = gen.names("q", 4)           # q0..q3 reused everywhere
-LOCALS = ["1$", "2$", "7"]
+LOCALS = ["1$", "2$", "7", "0", "10", "1", "11", "10$", "0$"]   # also names that collide when a scope number is glued to them without a separator
 
 
 @st.composite
@@ -170,6 +170,41 @@ def c11_program(draw):
     return {"files": files, "blobs": {}, "mains": mains, "charset": "bk", "meta": {"fault": fault}}
 
 
+@st.composite
+def scopes_program(draw):
+    """many local-label scopes (also spread over files and an include) that all reuse the same multi-digit local names;
+    every scope defines a subset and refers to it; optionally one scope refers to a name it does not define"""
+    names = ["0", "1", "10", "11", "100", "110", "2", "01"]
+    nscopes = draw(st.integers(8, 26))
+    nfiles = draw(st.integers(1, 3))
+    files = {f"s{'abc'[f]}.mac": [] for f in range(nfiles)}
+    paths = sorted(files)
+    marker = 0o100000
+    bad_at = draw(st.integers(0, nscopes * 4))
+    for i in range(nscopes):
+        path = paths[i * nfiles // nscopes]
+        body = files[path]
+        body.append({"k": "label", "name": f"sc{i}"})
+        chosen = draw(st.lists(st.sampled_from(names), min_size=1, max_size=4, unique=True))
+        for n in chosen:
+            marker += 1
+            body.append({"k": "local", "name": n})
+            body.append({"k": "data", "d": "word", "es": [("num", marker)]})
+        for n in draw(st.permutations(chosen)):
+            body.append({"k": "data", "d": "word", "es": [("loc", n + ":")]})
+        if i == bad_at:
+            missing = [n for n in names if n not in chosen]
+            body.append({"k": "data", "d": "word", "es": [("loc", draw(st.sampled_from(missing)) + ":")]})
+    if draw(st.booleans()) and nfiles > 1:
+        # turn the last file into an include of the first
+        last = paths[-1]
+        files[paths[0]].append({"k": "include", "path": last})
+        mains = paths[:-1]
+    else:
+        mains = paths
+    return {"files": files, "blobs": {}, "mains": mains, "charset": "bk", "meta": {"fault": "missing-local" if bad_at < nscopes else None, "scopes": nscopes}}
+
+
 def reuse_stats(prog):
     """names defined in >= 2 scopes/files and referenced somewhere"""
     defs = {}
@@ -206,7 +241,7 @@ def judge(prog):
 def shards(tier):
     k = 16
     per = (3000 if tier == "quick" else 50000) // k
-    return [{"part": "random", "i": i, "examples": per} for i in range(k)]
+    return [{"part": "random", "i": i, "examples": per} for i in range(k)] + [{"part": "scopes", "i": i, "examples": max(per // 4, 10)} for i in range(4)]
 
 
 def run_shard(spec, ctx):
@@ -218,7 +253,9 @@ def run_shard(spec, ctx):
             ctx.evaluations += 1
             return None
         reuse = reuse_stats(prog)
-        labels = [f"files-{len(prog['mains'])}", f"model-{r.kind}" + (":" + r.errors[0] if r.errors else ""), f"planted-{prog['meta']['fault']}",
+        if "scopes" in prog["meta"]:
+            reuse = max(reuse, 1)
+        labels = ([f"scopes-{'<11' if prog['meta']['scopes'] < 11 else '11+'}"] if "scopes" in prog["meta"] else []) + [f"files-{len(prog['mains'])}", f"model-{r.kind}" + (":" + r.errors[0] if r.errors else ""), f"planted-{prog['meta']['fault']}",
                   "has-include" if len(prog["files"]) > len(prog["mains"]) else "no-include", "reused-names" if reuse else "no-reuse"]
         if any(s["k"] == "extern" and s["names"] == "all" for st_ in prog["files"].values() for s in st_):
             labels.append("extern-all")
@@ -227,7 +264,7 @@ def run_shard(spec, ctx):
             return (fails[0][0], fails[0][1], progcheck.case_of(prog))
         return None
 
-    core.hyp_search(ctx, c11_program(), check, spec["examples"], "c11")
+    core.hyp_search(ctx, scopes_program() if spec["part"] == "scopes" else c11_program(), check, spec["examples"], "c11-" + spec["part"])
 
 
 def replay(case):
